@@ -421,6 +421,11 @@ def judge_history(h, tr, m, failures, dist):
         failures.append(dict(base, signature="model-error", kind="disagreement", what=m["fail"],
                              input=hist_describe(h, tr)))
         return False
+    if any("samples" in rec and len(rec["samples"]) == 0 for rec in tr["steps"]):
+        # every draw of some simulation was undefined: the stored set is empty and the library
+        # simulates again on each access — outside the model (not judged, counted)
+        dist["skipped:empty-sample-set"] += 1
+        return False
     nsrc = tr["nsrc"]
     nontrivial = False
     prev_cache = None
